@@ -1,0 +1,18 @@
+// SPDX-FileCopyrightText: 2022-present Intel Corporation
+//
+// SPDX-License-Identifier: Apache-2.0
+
+//go:build verif
+
+// Contracts for the deductive verifier in /verif (govc). Comment-only: this file contains no code
+// and is excluded from every build that does not set the "verif" tag.
+
+package target
+
+//@ import topoapi "github.com/onosproject/onos-api/go/onos/topo"
+
+//@ func (*Reconciler).Reconcile
+//@   props C10
+//@   requires r != nil && isType(id.Value, "topoapi.ID")
+//@   ensures {C10} connect-iff-target-exists: (connects > old(connects) ==> lastTopoGetOK && connects == old(connects) + 1 && disconnects == old(disconnects) && lastConnectTarget == unboxString(id.Value)) && (disconnects > old(disconnects) ==> !lastTopoGetOK && disconnects == old(disconnects) + 1 && connects == old(connects) && lastDisconnectTarget == unboxString(id.Value))
+//@   ensures {C10} existing-target-gets-connected: lastTopoGetOK ==> connects == old(connects) + 1
